@@ -212,6 +212,19 @@ class NPProxy:
             return _np.array([v % m for v in a.ravel()], dtype=object).reshape(a.shape)
         return _np.mod(a, m)
 
+    def fmod(self, a, m):
+        # C fmod: the result has the sign of the dividend (np.mod: of the divisor)
+        if isinstance(a, Term):
+            r = a % m
+            if (a >= 0):
+                return r
+            if (r == 0):
+                return r
+            return r - m
+        if isinstance(a, _np.ndarray) and a.dtype == object:
+            return _np.array([self.fmod(v, m) for v in a.ravel()], dtype=object).reshape(a.shape)
+        return _np.fmod(a, m)
+
     def clip(self, x, lo, hi):
         if isinstance(x, Term):
             lo_t, hi_t = Term.lift(lo), Term.lift(hi)
@@ -404,7 +417,7 @@ STUBS = [
     "math.{sin,cos,tan,sqrt,atan2,acos,asin,atan,exp,log}: real functions axiomatised (DESIGN 3.4)",
     "np.{zeros,ones,eye,identity,pad}: object arrays of exact ints while symbolic",
     "np.linalg.{norm,det,inv,matrix_power}: sqrt-of-squares / cofactor / adjugate / repeated product",
-    "np.{allclose,isclose,clip,all,mod,isscalar,array,asarray}: Term-aware equivalents",
+    "np.{allclose,isclose,clip,all,mod,fmod,isscalar,array,asarray}: Term-aware equivalents",
     "sympy.{sin,cos,sqrt,Expr}, sympy.Matrix.det: dispatch on Term",
     "quaternion.float: identity on Term",
     "scipy.linalg.logm: closed-form principal logarithm for arguments proved SO(2)/SE(2) on the path (half turn excluded); other arguments not encodable",
